@@ -542,7 +542,8 @@ impl Sim {
             .iter()
             .filter_map(|q| q.prefill.as_ref().map(|(_, ts)| (q.resource_rq_id.as_num(), ts.iter().copied().collect())))
             .collect();
-        let tasks = split.task_map.task_ids().collect();
+        // iteration order of `task_map.tasks_mut()` (StableMap: storage order, NOT the key order of the index)
+        let tasks = split.task_map.tasks().map(|t| t.id).collect();
         VOrders { workers, worker_sets, prefill_sets, tasks }
     }
 
